@@ -98,8 +98,14 @@ C19OK(rec) ==
             rec.load6 >= want - 2 /\ rec.load6 <= want + 2
        /\ (post.pend => post.rhclean <= post.count)
 
+\* C16: resize and shrink-to-fit quietly do nothing when the bucket array cannot be (re)allocated
+C16OK(rec) == (rec.op \in {"resize", "shrink"} /\ rec.fail) =>
+                 /\ C03OK(rec) /\ rec.out = "ok"
+                 /\ (\E k \in 1..Len(rec.ev) : rec.ev[k][1] = "allocfail") =>
+                       (Live(ToSt(rec.post)) = Live(ToSt(rec.pre)) /\ ToSt(rec.post).cap = ToSt(rec.pre).cap)
 VARIABLE i
 Judge(rec) ==
+    /\ (Level # 2 \/ C16OK(rec) \/ PrintT(<<"L2FAIL", "C16", rec.id>>))
     /\ (Level # 2 \/ C03OK(rec) \/ PrintT(<<"L2FAIL", "C03", rec.id>>))
     /\ (Level # 2 \/ C04OK(rec) \/ PrintT(<<"L2FAIL", "C04", rec.id>>))
     /\ (Level # 2 \/ C17OK(rec) \/ PrintT(<<"L2FAIL", "C17", rec.id>>))
